@@ -18,9 +18,11 @@ CHECKS = {
         text="Static: the 196-entry interleave table is folded from the source and checked exhaustively against the ETSI formula; "
              "encode/extract/repair plumbing is decided for all 2^96 messages at once by abstract interpretation over GF(2)-affine forms "
              "(systematic placement, every row/column of the transmitted matrix a Hamming codeword, extractor reads where the encoder writes, "
-             "repair leaves an error-free codeword unaltered). The <=2-error repair schedule is decided per error pattern only in the thorough tier / not at all (see DESIGN.md C02).",
-        technique="constant folding + table algebra; abstract interpretation over GF(2)-affine bit forms (array provenance)",
-        note="trusted: CPython ast, sa/bitabs.py models of bitarray/numpy subscripts, C06 for the component codes; error-correction capability for corrupted words is outside the quick tier",
+             "repair leaves an error-free codeword unaltered). Repair clause: one abstract run per error pattern of weight <= 2 with the MESSAGE symbolic — encode, invert the pattern's positions, the real deinterleave_data_bits with repair "
+             "(row / column passes in source order; for a known non-zero syndrome the real check_and_correct is interpreted, so the inverted bit is the code's own choice): every syndrome is a constant, one path, output bit i must be message atom i. "
+             "Quick: 196 single errors, all 2,535 pairs within one matrix row or column, 195 pad-bit pairs, every 17th of the other pairs; thorough: all 19,306 patterns.",
+        technique="constant folding + table algebra; abstract interpretation over GF(2)-affine bit forms (array provenance); finite case split over error patterns with the message symbolic",
+        note="trusted: CPython ast, sa/bitabs.py models of bitarray/numpy subscripts, C06 for the component codes' generate/check summaries; the repair clause enumerates error patterns (a finite case split), it is not symbolic in the error positions",
         ref="DESIGN.md §3 C02"),
     "C03": dict(
         text="Static: every reader/writer pair of the layer-2/3 PDUs (13 classes, 48 discriminator branches) is analysed by abstract interpretation on a symbolic wire: per reader branch the object is "
